@@ -527,7 +527,9 @@ void QXmppTransferIncomingJob::connectToHosts(const QXmppByteStreamIq &iq)
 bool QXmppTransferIncomingJob::writeData(const QByteArray &data)
 {
     const qint64 written = d->iodevice->write(data);
-    if (written < 0) {
+    if (written != data.size()) {
+        // the device failed or took only part of the block: the file cannot be complete any more
+        terminate(QXmppTransferJob::FileAccessError);
         return false;
     }
     d->done += written;
